@@ -15,6 +15,7 @@ from .c06 import paths
 SAFE_PATTERNS = {
     ".isoformat(": "ISO date/time text contains no quote",
 }
+JSON_TEXT_CLASSES = {"JSON"}      # classes that assemble JSON document text themselves
 EXEMPT_CLASSES = {
     "Interval": "components are integers by constructor contract; the literal shape is C18's obligation",
 }
@@ -87,6 +88,28 @@ def check(program: Program, run: Run) -> None:
         for flat, pconds in all_paths:
             for i, j, q, kind in quoted_spans(flat):
                 if kind == "hole" and "secondary_quote_char" not in q:
+                    continue
+                if q in ('"', "'\"'") and c is not None and any(k.name in JSON_TEXT_CLASSES for k in c.mro):
+                    # a JSON string token inside the document text: delimiter and backslash must be backslash-escaped
+                    for p_ in flat[i + 1:j]:
+                        if isinstance(p_, Lit):
+                            continue
+                        jt = show(p_.value if isinstance(p_, Hole) else p_, -20)
+                        jok = ".replace(" in jt and "'\\\\'" in jt
+                        jsrc = getattr(p_, "src", ()) or ()
+                        jfn = jsrc[0] if jsrc else f.qualname
+                        jchain = [x for x in (jsrc[3] if len(jsrc) > 3 else ()) if not x.startswith("utils.")]
+                        if jfn.startswith("utils.") and jchain:
+                            jfn = jchain[-1]
+                        if (jfn, jt[:60]) in seen:
+                            continue
+                        seen.add((jfn, jt[:60]))
+                        sinks += 1
+                        run.ob("C05/R1 JSON string token has delimiter and backslash escaped", f"{jfn}: {jt[:60]}", jok, where=f"{jsrc[2]}:{jsrc[1]}" if jsrc else "")
+                        if not jok:
+                            run.finding(f"C05/json-string-unescaped:{jfn}", f"{jfn} writes `{jt[:60]}` between JSON string quotes without backslash-escaping the delimiter and the backslash: "
+                                        "a key or value containing \" or \\ ends the JSON string early or is read as an escape, so the document no longer decodes to the original value",
+                                        where=f"{jsrc[2]}:{jsrc[1]}" if jsrc else "", rule="R1")
                     continue
                 if kind == "lit" and q != "'":
                     continue
